@@ -233,4 +233,16 @@ theorem settled_final (s : St) (op : Op) (w : Nat) (f : FState) (hw : s.futs[w]?
   | raceCancel x => simp only [step]; exact hfd _ (hcancel _ x (by simpa [advance] using hw))
 
 end Event
+/-! ### refinement to the sequential specifications (stated, not proved: tie-only, see docs/C34.md) -/
+
+def Cond.refines_spec_goal : Prop :=
+  ∀ (t0 : Nat) (ops : List Cond.Op),
+    (Cond.run (Cond.init t0) ops).2.map (fun o => (o.res, o.evs)) =
+      (Spec.Cond.run Spec.Cond.init ops).2.map (fun o => (o.res, o.evs))
+
+def Event.refines_spec_goal : Prop :=
+  ∀ (ops : List Event.Op),
+    (Event.run Event.init ops).2.map (fun o => (o.res, o.evs)) =
+      (Spec.Event.run Spec.Event.init ops).2.map (fun o => (o.res, o.evs))
+
 end TornadoModel.C34
